@@ -1,3 +1,88 @@
-From Vicut Require Import Base.Prelude.
-Theorem placeholder : True. Proof. exact I. Qed.
-Print Assumptions placeholder.
+(** Property C12: [-r N R] is exactly the unrolled command list.
+    Only statements live here; proofs are in Proofs/. *)
+From Vicut Require Import Base.Prelude Model.Args Model.Exec Spec.Items
+  Proofs.ArgsProofs Proofs.UnrollProofs Proofs.ExecProofs.
+
+(** (1) The model of [Opts::parse] / [handle_global_arg] maps every well-formed
+    command line, in any spelling and nesting, to the option record and command
+    tree it denotes. *)
+Theorem C12_parse_denotes :
+  forall (file_ok : text -> bool) (its : list item),
+    forallb (wf_item true) its = true ->
+    parse file_ok (render its) = Ok (denote_opts its).
+Proof. exact parse_render. Qed.
+
+(** (2) Writing the last N commands out R more times, textually, gives exactly
+    the flattened command tree - at top level, nested, inside -g/-v/--else. *)
+Theorem C12_flatten_is_unroll :
+  forall its : list item, flatten (denote its) = denote (unroll its).
+Proof. exact flatten_denote_unroll. Qed.
+
+(** (3) Both together, on the parser model: the [-r] form and the unrolled form
+    parse to the same options, and the command tree of the unrolled form is the
+    flattened tree of the [-r] form and contains no repeat group. *)
+Theorem C12_parse_unroll :
+  forall (file_ok : text -> bool) (its : list item),
+    forallb (wf_item true) its = true ->
+    exists o1 o2,
+      parse file_ok (render its) = Ok o1 /\
+      parse file_ok (render (unroll its)) = Ok o2 /\
+      flatten (o_cmds o1) = o_cmds o2 /\
+      set_cmds o1 [] = set_cmds o2 [] /\
+      flatten (o_cmds o2) = o_cmds o2.
+Proof.
+  intros file_ok its Hw.
+  exists (denote_opts its), (denote_opts (unroll its)).
+  split; [now apply parse_render|].
+  split; [apply parse_render; now apply unroll_wf|].
+  unfold denote_opts. rewrite !set_cmds_cmds, !set_cmds_twice, unroll_opts.
+  split; [apply flatten_denote_unroll|]. split; [reflexivity|].
+  unfold unroll, denote. rewrite denote_skip_opts by apply forallb_filter.
+  fold (denote (concat (fold_left unroll_step its []))).
+  rewrite denote_plain by apply unroll_no_repeat.
+  unfold flatten. apply (flatten_plain_n _ _ (le_n _)). apply unroll_no_repeat.
+Qed.
+
+(** (4) Execution: for every editor core in which entering a scope is undone by
+    leaving it and is invisible to commands that declare nothing, and in which
+    the mode reset is idempotent, executing a command list equals executing its
+    flattening from any state in which the mode has been reset (the initial
+    state is one). *)
+Theorem C12_exec_flatten :
+  forall (st : Type)
+         (do_move : text -> st -> st) (do_cut : option text -> text -> st -> st)
+         (do_next snm descend ascend : st -> st)
+         (glines : bool -> text -> st -> list nat)
+         (goto_line : nat -> st -> option st),
+    (forall s, ascend (descend s) = s) ->
+    (forall k s, do_move k (descend s) = descend (do_move k s)) ->
+    (forall n k s, do_cut n k (descend s) = descend (do_cut n k s)) ->
+    (forall s, do_next (descend s) = descend (do_next s)) ->
+    (forall s, snm (descend s) = descend (snm s)) ->
+    (forall p q s, glines p q (descend s) = glines p q s) ->
+    (forall ln s, goto_line ln (descend s) = option_map descend (goto_line ln s)) ->
+    (forall s, snm (snm s) = snm s) ->
+    (forall ln s s1, snm s = s -> goto_line ln s = Some s1 -> snm s1 = s1) ->
+    forall (l : list cmd) (s : st),
+      snm s = s ->
+      seq st do_move do_cut do_next snm descend ascend glines goto_line (flatten l) s
+      = seq st do_move do_cut do_next snm descend ascend glines goto_line l s.
+Proof. exact seq_flatten. Qed.
+
+(** Non-vacuity: a nested command line with [-r] at top level, inside a [-g]
+    scope and in its [--else] branch is well-formed; its unrolling is computed. *)
+Example C12_example :
+  let its := [ICut false (T "e"); IMove false (T "w"); IRep false (T "2") (T "1");
+              IGlob false GG (T "foo")
+                [ICut true (T "e"); IMove false (T "w"); IRep true (T "2") (T "2")]
+                (Some [INext false; IMove false (T "x"); IRep false (T "1") (T "3")]);
+              IRep false (T "2") (T "1")] in
+  forallb (wf_item true) its = true /\
+  List.length (render (unroll its)) = 66%nat /\
+  parse (fun _ => false) (render its) = Ok (denote_opts its).
+Proof. vm_compute. repeat split. Qed.
+
+Print Assumptions C12_parse_denotes.
+Print Assumptions C12_flatten_is_unroll.
+Print Assumptions C12_parse_unroll.
+Print Assumptions C12_exec_flatten.
